@@ -4,6 +4,7 @@ import (
 	"fmt"
 	"go/token"
 	"go/types"
+	"os"
 	"sort"
 	"strings"
 
@@ -26,6 +27,7 @@ type errDisc struct {
 	carriers map[*ssa.Function]bool
 	// flowCalls[f] = calls whose error result may flow into f's returned error
 	flowCalls map[*ssa.Function][]*ssa.Call
+	skipPhi   *ssa.Phi // aliasesWithout: the merge the alias walk must not pass through
 }
 
 // isDBSource: the call is a mutator of the walletdb interfaces or of bbolt.
@@ -222,7 +224,9 @@ func (ed *errDisc) aliases(e ssa.Value) *errAliases {
 		for _, u := range usesOf(v) {
 			switch x := u.(type) {
 			case *ssa.Phi:
-				add(x)
+				if x != ed.skipPhi {
+					add(x)
+				}
 			case *ssa.MakeInterface:
 				add(x)
 			case *ssa.ChangeInterface:
@@ -243,6 +247,10 @@ func (ed *errDisc) aliases(e ssa.Value) *errAliases {
 					}
 					al.addrs[a] = true
 					for _, ld := range loadsOfAddr(a) {
+						// (only the loads this store can reach: the variable may have held other calls' errors before)
+						if li, ok := ld.(ssa.Instruction); ok && li.Parent() == x.Parent() && !storeReachesLoad(x, li, a) {
+							continue
+						}
 						add(ld)
 					}
 				case *ssa.FreeVar:
@@ -273,7 +281,8 @@ func (ed *errDisc) aliases(e ssa.Value) *errAliases {
 				if isLoggerCall(&x.Call) {
 					continue
 				}
-				if isErrorType(x.Type()) {
+				if isErrorType(x.Type()) || implementsError(x.Type()) {
+					// (managerError(code, str, err) / storeError(...) return a concrete error type that wraps err)
 					add(x)
 				} else if t, ok := x.Type().(*types.Tuple); ok {
 					for i := 0; i < t.Len(); i++ {
@@ -485,7 +494,7 @@ func (ed *errDisc) checkSite(c *ssa.Call) errSiteResult {
 			case *ssa.Call:
 				if isLoggerCall(&x.Call) {
 					logged = true
-				} else if !isErrorType(x.Type()) && !tupleHasErr(x.Type()) {
+				} else if !isErrorType(x.Type()) && !tupleHasErr(x.Type()) && !implementsError(x.Type()) {
 					// passed to a non-wrapping call (errors.Is etc. are tests; others consume it)
 					if f := x.Call.StaticCallee(); f != nil && f.Pkg != nil {
 						n := f.Pkg.Pkg.Name() + "." + f.Name()
@@ -507,8 +516,11 @@ func (ed *errDisc) checkSite(c *ssa.Call) errSiteResult {
 		return errSiteResult{ok: false, kind: "dropped", pos: c.Pos(),
 			detail: fmt.Sprintf("error result of %s is never returned, tested, sent or stored", site)}
 	}
-	if propagates && len(checks) == 0 {
-		return errSiteResult{ok: true, how: "returned"}
+	// (an error that is returned somewhere but tested nowhere is fine only if it is returned on every path: rules C-E
+	// below decide that; `rmErr := f(); if err != nil { return rmErr }` returns it under another variable's test)
+	onlyReturned := propagates && len(checks) == 0
+	if os.Getenv("VERIF_DEBUG") != "" && fn.Name() == os.Getenv("VERIF_DEBUG") {
+		fmt.Println("DEBUG site", site, ed.p.Pos(c.Pos()), "propagates", propagates, "escapes", escapes, "checks", len(checks), "vals", len(al.vals))
 	}
 	// Rule B: every nil-test's failure edge must be honest.
 	for _, ck := range checks {
@@ -685,13 +697,88 @@ func (ed *errDisc) checkSite(c *ssa.Call) errSiteResult {
 				return errSiteResult{ok: false, kind: "swallowed", pos: c.Pos(),
 					detail: fmt.Sprintf("after %s the function can report success at %s without having looked at its error (an earlier test of another result returns first): a failed write is reported as success", site, ed.p.Pos(hits[0].Ins.Pos()))}
 			}
+			// Rule E: ... nor having been replaced by a later result at a merge. `err = put1(); if b { err = put2() }; if
+			// err != nil` tests put1's error only on the path that skips put2: the test of the merged variable counts for
+			// this call only where the merge was entered over an edge that carries this call's error.
+			for v := range al.vals {
+				ph, ok := v.(*ssa.Phi)
+				if os.Getenv("VERIF_DEBUG") != "" && fn.Name() == os.Getenv("VERIF_DEBUG") {
+					fmt.Println("DEBUG ruleE", site, v.Name(), ok)
+				}
+				if !ok || ph.Parent() != fn {
+					continue
+				}
+				for i, ev := range ph.Edges {
+					if al.vals[ev] || ed.derivesFromAlias(ev, al) {
+						continue
+					}
+					pred := ph.Block().Preds[i]
+					// reach the killing edge from the call without the error having been consumed ...
+					q1 := &PathQuery{Fn: fn, Barrier: consumed}
+					first := ph.Block().Instrs[0]
+					q1.Target = func(ins ssa.Instruction, via *ssa.BasicBlock) bool { return ins == first && via == pred }
+					if len(q1.From(c)) == 0 {
+						continue
+					}
+					// ... and from there a success return without any other alias of it having been consumed
+					al2 := ed.aliasesWithout(e, ph)
+					consumed2 := func(ins ssa.Instruction) bool {
+						switch x := ins.(type) {
+						case *ssa.If:
+							if v, _, ok := nilCompare(x.Cond); ok && al2.vals[v] {
+								return true
+							}
+							if _, _, ok := ed.sentinelTest(x.Cond, al2); ok {
+								return true
+							}
+						case *ssa.Return:
+							for _, r := range x.Results {
+								if al2.vals[r] || ed.derivesFromAlias(r, al2) {
+									return true
+								}
+							}
+						case *ssa.Call:
+							for _, a := range x.Call.Args {
+								if al2.vals[a] {
+									return true
+								}
+							}
+						case *ssa.Panic:
+							return true
+						}
+						return false
+					}
+					q2 := &PathQuery{Fn: fn, Barrier: consumed2}
+					q2.Target = func(ins ssa.Instruction, via *ssa.BasicBlock) bool {
+						r, ok := ins.(*ssa.Return)
+						if !ok {
+							return false
+						}
+						return ed.p.classifyReturn(r, via) != retError
+					}
+					if hits := exploreFromBlock(q2, ph.Block(), pred); len(hits) > 0 {
+						return errSiteResult{ok: false, kind: "overwritten", pos: c.Pos(),
+							detail: fmt.Sprintf("the error of %s can be replaced by a later result before it is tested (the variable is assigned again on the way to the test at %s): when the later write succeeds the function reports success although this one failed", site, ed.p.Pos(ph.Pos()))}
+					}
+				}
+			}
 		}
 	}
 	how := "tested"
 	if escapes && len(checks) == 0 {
 		how = "escapes"
 	}
+	if onlyReturned {
+		how = "returned"
+	}
 	return errSiteResult{ok: true, how: how}
+}
+
+// aliasesWithout: the aliases of e that do not pass through the merge ph.
+func (ed *errDisc) aliasesWithout(e ssa.Value, ph *ssa.Phi) *errAliases {
+	ed.skipPhi = ph
+	defer func() { ed.skipPhi = nil }()
+	return ed.aliases(e)
 }
 
 func tupleHasErr(t types.Type) bool {
@@ -845,4 +932,58 @@ func (ed *errDisc) sitesIn(pkgs map[string]bool) []errSite {
 	}
 	sort.SliceStable(out, func(i, j int) bool { return out[i].call.Pos() < out[j].call.Pos() })
 	return out
+}
+
+// storeReachesLoad: the load of addr at ld can observe the value st stored — it is reachable from st without passing
+// another store to addr (same function).
+func storeReachesLoad(st *ssa.Store, ld ssa.Instruction, addr ssa.Value) bool {
+	kills := func(i ssa.Instruction) bool {
+		s2, ok := i.(*ssa.Store)
+		return ok && s2 != st && s2.Addr == addr
+	}
+	b := st.Block()
+	start := instrIndex(st) + 1
+	seen := map[*ssa.BasicBlock]bool{}
+	var walk func(b *ssa.BasicBlock, from int) bool
+	walk = func(b *ssa.BasicBlock, from int) bool {
+		for i := from; i < len(b.Instrs); i++ {
+			if b.Instrs[i] == ld {
+				return true
+			}
+			if kills(b.Instrs[i]) {
+				return false
+			}
+			// a call of a function literal that assigns the variable: it may be rewritten there; be conservative and
+			// keep going (the literal's own stores are other sites)
+		}
+		for _, s := range b.Succs {
+			if seen[s] {
+				continue
+			}
+			seen[s] = true
+			if walk(s, 0) {
+				return true
+			}
+		}
+		return false
+	}
+	return walk(b, start)
+}
+
+// implementsError: a concrete (non-interface) type with an Error() string method: the repository's own error structs.
+func implementsError(t types.Type) bool {
+	if t == nil {
+		return false
+	}
+	if _, isIface := t.Underlying().(*types.Interface); isIface {
+		return false
+	}
+	if _, isTuple := t.(*types.Tuple); isTuple {
+		return false
+	}
+	iface, ok := errorType.Underlying().(*types.Interface)
+	if !ok {
+		return false
+	}
+	return types.Implements(t, iface) || types.Implements(types.NewPointer(t), iface)
 }
